@@ -251,5 +251,5 @@ Example C04_glv_outside_subgroup_observation :
   run_C04 10 [[11]; [103; 1; 0]; [0]; [3]; [31; 1; 5; 0]; [5; 5; -1; 1; 6]; [56]; [3]; [6; 61; 1]]
     = [[0]; [90; 81; 0]; [90; 81; 0]] /\
   run_C04 3 [[11]; [103; 1; 0]; [0]; [3]; [31; 1; 5; 0]; [5; 5; -1; 1; 6]; [56]; [3]; [6; 61; 1]]
-    = [[0]; [47; 38; 0]; [47; 38; 0]].
+    = [[0]; [47; 38; 0]; [47; 38; 0]; [47; 38; 0]; [47; 38; 0]].
 Proof. vm_compute. auto. Qed.
